@@ -391,18 +391,27 @@ func C13_Trim() {
 // leading digits are symbolic; strconv.Atoi / ParseInt are interpreted from the
 // std source on them, so the solver also sees values beyond the int range.
 func C13_PosName() {
-	l := []int{1, 2, 3, 18, 19, 20, 21}[nd.Choice(7)]
-	// the two leading digits are symbolic, the rest are nines (20 free digits
-	// make 64-bit multiplication chains that no solver here decides)
-	name := nd.StrIn(1, "0123456789")
-	if l > 1 {
-		name += nd.StrIn(1, "0123456789")
-	}
-	for len(name) < l {
-		name += "9"
+	var name string
+	l := []int{1, 2, 3, 18, 19, 20, 21, 0}[nd.Choice(8)]
+	if l == 0 {
+		// wrap-around boundaries: the leading digits of 2^63, 2^64, 2*2^64
+		// and 10^19, then two symbolic digits
+		name = []string{"92233720368547758", "184467440737095516", "368934881474191032", "100000000000000000"}[nd.Choice(4)]
+		name += nd.StrIn(2, "0123456789")
+		l = len(name)
+	} else {
+		// the two leading digits are symbolic, the rest are nines (20 free digits
+		// make 64-bit multiplication chains that no solver here decides)
+		name = nd.StrIn(1, "0123456789")
+		if l > 1 {
+			name += nd.StrIn(1, "0123456789")
+		}
+		for len(name) < l {
+			name += "9"
+		}
 	}
 	nd.Assume(name[0] != '0') // "0", "00" ... name parameter 0
-	env := interp.NewExecEnv("sh", "p1")
+	env := interp.NewExecEnv("sh", "p1", "p2", "p3")
 	var inherited []string
 	env.Walk(func(v interp.Var) { inherited = append(inherited, v.Name) })
 	count := len(inherited)
@@ -411,8 +420,8 @@ func C13_PosName() {
 	env.Walk(func(v interp.Var) { n++ })
 	nd.Assert(n == count, "Set does not create a variable named like a positional parameter")
 	v, set := env.Get(name)
-	if l == 1 && name == "1" {
-		nd.Assert(set && v.Value == "p1", "$1 reflects Args")
+	if l == 1 && (name == "1" || name == "2" || name == "3") {
+		nd.Assert(set && v.Value == "p"+name, "$1..$3 reflect Args")
 	} else {
 		nd.Assert(!set, "a positional parameter beyond Args is unset")
 	}
